@@ -55,6 +55,8 @@ class Sim:
         self.killed = False
         self.timeout_prob = timeout_prob
         self.keep_log = True
+        self.spin_timeout = 30.0       # real seconds a managed thread may run without reaching a hand-over point
+        self.spinning = None
         self.hook = None               # hook(kind, object): called by the substituted Event at set / clear / return of wait
 
     # ------------------------------------------------------------------ thread side
@@ -151,7 +153,11 @@ class Sim:
             t.cond = None
             t.steps += 1
             t.go.release()
-            self.ctl.acquire()
+            if not self.ctl.acquire(timeout=self.spin_timeout):
+                # the thread neither blocked on a substituted primitive nor finished: a busy loop without synchronisation
+                self.spinning = t.name
+                self.cur = None
+                return "spin"
             self.cur = None
 
     def kill(self):
@@ -476,6 +482,7 @@ class FakeSock:
         return not self.closed and not self.listening and self.writable
 
     def recv(self, n):
+        self.sim._yield(("sock.recv",))
         if self.closed:
             raise OSError(9, "Bad file descriptor")
         if self.inbox:
@@ -491,6 +498,7 @@ class FakeSock:
         raise BlockingIOError()
 
     def send(self, data):
+        self.sim._yield(("sock.send",))
         if self.closed:
             raise OSError(9, "Bad file descriptor")
         if self.refused:
